@@ -57,7 +57,7 @@ def run(tier):
     if quick:
         acts = acts[::3] + acts[1::7] + acts[3::8]       # every third spec (each writing in turn) + a second stride; thorough runs all
     jobs += acts
-    depth = 4 if quick else 7
+    depth = 4 if quick else 8
     for api in ("NR", "R", "C99"):
         ops, gs = stack_groups(api)
         o = ["stack"] + (["reentrant"] if api == "R" else [])
